@@ -48,11 +48,11 @@ type pipeLoad struct {
 // fixtures: name -> files; every fixture is loaded from compose.yaml (+ over.yaml when present)
 func pipeFixtures() map[string]map[string]string {
 	base := map[string]string{
-		"compose.yaml": "include:\n  - sub/inc.yaml\nservices:\n  a:\n    image: img\n    env_file: [a.env]\n    label_file: [a.label]\n    networks: [default]\n  e:\n    image: img\n    extends: {file: ext/ext.yaml, service: b}\n---\nservices:\n  d2:\n    image: img\n    extends: {service: a}\n",
-		"over.yaml":    "services:\n  a:\n    labels: {o: \"1\"}\n",
-		"ext/ext.yaml": "services:\n  b:\n    extends: {file: ext2.yaml, service: c}\n    build: ./ctx\n",
-		"ext/ext2.yaml": "services:\n  c:\n    image: img\n    volumes: ['./data:/data']\n",
-		"sub/inc.yaml":  "include:\n  - path: ../sub2/inc2.yaml\nservices:\n  i:\n    image: img\n    extends: {file: ../ext/ext2.yaml, service: c}\n",
+		"compose.yaml":   "include:\n  - sub/inc.yaml\nservices:\n  a:\n    image: img\n    env_file: [a.env]\n    label_file: [a.label]\n    networks: [default]\n  e:\n    image: img\n    extends: {file: ext/ext.yaml, service: b}\n---\nservices:\n  d2:\n    image: img\n    extends: {service: a}\n",
+		"over.yaml":      "services:\n  a:\n    labels: {o: \"1\"}\n",
+		"ext/ext.yaml":   "services:\n  b:\n    extends: {file: ext2.yaml, service: c}\n    build: ./ctx\n",
+		"ext/ext2.yaml":  "services:\n  c:\n    image: img\n    volumes: ['./data:/data']\n",
+		"sub/inc.yaml":   "include:\n  - path: ../sub2/inc2.yaml\nservices:\n  i:\n    image: img\n    extends: {file: ../ext/ext2.yaml, service: c}\n",
 		"sub2/inc2.yaml": "services:\n  j:\n    image: ${IMG:-img}\n",
 		"a.env":          "K=1\n",
 		"a.label":        "l=1\n",
@@ -80,16 +80,22 @@ func pipeFixtures() map[string]map[string]string {
 	// a construct that makes one phase fail
 	with("fail:interpolate", func(m map[string]string) { m["over.yaml"] = "services:\n  a:\n    labels: {o: \"${UNSET_X?boom}\"}\n" })
 	with("fail:interpolate-included", func(m map[string]string) { m["sub2/inc2.yaml"] = "services:\n  j:\n    image: ${UNSET_X?boom}\n" })
-	with("fail:merge", func(m map[string]string) { m["over.yaml"] = "services:\n  a:\n    image: [not, a, string]\n    labels: 3\n" })
+	with("fail:merge", func(m map[string]string) {
+		m["over.yaml"] = "services:\n  a:\n    image: [not, a, string]\n    labels: 3\n"
+	})
 	with("fail:schema", func(m map[string]string) { m["over.yaml"] = "services:\n  a:\n    no_such_attribute: 1\n" })
-	with("fail:schema-extended", func(m map[string]string) { m["ext/ext2.yaml"] = "services:\n  c:\n    image: img\n    no_such_attribute: 1\n" })
+	with("fail:schema-extended", func(m map[string]string) {
+		m["ext/ext2.yaml"] = "services:\n  c:\n    image: img\n    no_such_attribute: 1\n"
+	})
 	with("fail:canonical", func(m map[string]string) { m["over.yaml"] = "services:\n  a:\n    ports: ['1:2:3:4:5']\n" })
 	with("fail:validate", func(m map[string]string) {
 		m["over.yaml"] = "services:\n  a:\n    volumes:\n      - {type: bind, source: /x, target: /y, volume: {nocopy: true}}\n"
 	})
 	with("fail:normalize", func(m map[string]string) { m["over.yaml"] = "services:\n  a:\n    network_mode: service:nowhere\n" })
 	with("fail:consistency", func(m map[string]string) { m["over.yaml"] = "services:\n  a:\n    networks: [undefined_net]\n" })
-	with("fail:cycle", func(m map[string]string) { m["over.yaml"] = "services:\n  a:\n    depends_on: [e]\n  e:\n    depends_on: [a]\n" })
+	with("fail:cycle", func(m map[string]string) {
+		m["over.yaml"] = "services:\n  a:\n    depends_on: [e]\n  e:\n    depends_on: [a]\n"
+	})
 	with("fail:include-conflict", func(m map[string]string) { m["sub/inc.yaml"] = "services:\n  a:\n    image: other\n" })
 	with("fail:extends-missing-service", func(m map[string]string) { m["ext/ext.yaml"] = "services:\n  zz:\n    image: img\n" })
 	return out
